@@ -14,7 +14,7 @@ Definition enc_t (t : transfer) : list Z :=
    zt (t_rqtask t); zt (t_trtask t)].
 Definition enc_edges (l : list edge) : list Z := flat_map (fun e => [st_value (fst e); st_value (snd e)]) l.
 Definition enc_obs (o : obs) : list Z :=
-  match o with OEdge a b => [0; st_value a; st_value b] | ORet i r => [1; Z.of_nat i; zb r] end.
+  match o with OEdge a b => [0; st_value a; st_value b] | ORet i r => [1; Z.of_nat i; zb r] | OCancelled i => [3; Z.of_nat i] end.
 Fixpoint zeq (a b : list Z) : bool :=
   match a, b with [], [] => true | x :: a', y :: b' => Z.eqb x y && zeq a' b' | _, _ => false end.
 Fixpoint zzeq (a b : list (list Z)) : bool :=
@@ -45,7 +45,7 @@ Definition hh (ll : list (list Z)) : Z := fold_left hlist ll 1.
 
 (* data-only case files: a case is five integers (kind, index of the transfer, index of the call list,
    schedule as base-8 digits read from the least significant one, fingerprint of the observation).
-   digits: 1 = Capture (next call of the list), 2/3/4 = Start 0/1/2, 5 = Step, 6 = Wake. *)
+   digits: 1 = Capture (next call of the list), 2/3/4 = Start 0/1/2, 5 = Step, 6 = Wake, 7 d = Cancel (d - 1). *)
 Fixpoint dec_sched (fuel : nat) (n : Z) (cs : list call) : list ev :=
   match fuel with
   | O => []
@@ -56,6 +56,7 @@ Fixpoint dec_sched (fuel : nat) (n : Z) (cs : list call) : list ev :=
       if Z.eqb d 1 then match cs with c :: cs' => Capture c :: dec_sched f r cs' | [] => dec_sched f r cs end
       else if Z.eqb d 5 then Step :: dec_sched f r cs
       else if Z.eqb d 6 then Wake :: dec_sched f r cs
+      else if Z.eqb d 7 then Cancel (Z.to_nat (r mod 8 - 1)) :: dec_sched f (r / 8) cs
       else Start (Z.to_nat (d - 2)) :: dec_sched f r cs
   end.
 Definition dummy_t : transfer := mkT UNSET Upload None None false None None 0%N 0%N 0%N false false false false TNone TNone.
@@ -77,9 +78,9 @@ Definition run_case (ts : list transfer) (css : list (list call)) (c : Z * Z * Z
     let t := nth (Z.to_nat ti) ts dummy_t in
     let cs := nth (Z.to_nat ci) css [] in
     let out := if Z.eqb kind 0 then seq_out t cs
-               else if Z.eqb kind 1 then conc_out t (dec_sched 80 sched cs)
-               else if Z.eqb kind 3 then lconc_out t (dec_sched 80 sched cs)
-               else conc_flat t (dec_sched 80 sched cs) in
+               else if Z.eqb kind 1 then conc_out t (dec_sched 120 sched cs)
+               else if Z.eqb kind 3 then lconc_out t (dec_sched 120 sched cs)
+               else conc_flat t (dec_sched 120 sched cs) in
     Z.eqb (hh out) fp
   end.
 Fixpoint bad_from (ts : list transfer) (css : list (list call)) (i : nat) (l : list (Z * Z * Z * Z * Z)) : list nat :=
